@@ -14,18 +14,22 @@ type World struct {
 	Store    *fake.Store
 	NodeType []string
 	Unions   map[string][]string // union name -> member node types
+	// SubEvents: subscription root field -> the values its successive events carry
+	SubEvents map[string][]fake.Val
+	SubOwner  map[string]string // subscription root field -> service URL
 }
 
 type WorldOptions struct {
-	MaxServices int
-	Unions      bool
-	ValueTypes  bool
-	Interfaces  bool
-	IDAlphabet  string // extra characters that may appear inside ids ("" = plain)
-	NullsInList bool
-	Mutations   bool
-	ListMax     int // upper bound for generated list lengths (default 3)
-	EntitiesMax int // upper bound for entities per Node type (default 4)
+	MaxServices   int
+	Unions        bool
+	ValueTypes    bool
+	Interfaces    bool
+	IDAlphabet    string // extra characters that may appear inside ids ("" = plain)
+	NullsInList   bool
+	Mutations     bool
+	ListMax       int // upper bound for generated list lengths (default 3)
+	EntitiesMax   int // upper bound for entities per Node type (default 4)
+	Subscriptions bool
 }
 
 func DefaultWorldOptions() WorldOptions {
@@ -48,7 +52,7 @@ const (
 
 func NewWorld(rng *rand.Rand, opt WorldOptions) *World {
 	n := 1 + rng.Intn(opt.MaxServices)
-	w := &World{Store: fake.NewStore(), Unions: map[string][]string{}}
+	w := &World{Store: fake.NewStore(), Unions: map[string][]string{}, SubEvents: map[string][]fake.Val{}, SubOwner: map[string]string{}}
 	for i := 0; i < n; i++ {
 		w.Services = append(w.Services, &Service{URL: fmt.Sprintf("http://svc%d", i)})
 	}
@@ -348,6 +352,27 @@ func NewWorld(rng *rand.Rand, opt WorldOptions) *World {
 				fd := Field{Name: fmt.Sprintf("m%d_%d", si, j), Type: typeOf(kind, to), Args: []Arg{{Name: "v", Type: "String"}}}
 				m.Fields = append(m.Fields, fd)
 				w.Store.Roots["Mutation"][fd.Name] = mkValue(kind, to, fd.Name)
+			}
+		}
+		if opt.Subscriptions && (si == 0 || rng.Intn(2) == 0) {
+			sub := s.ensure("OBJECT", "Subscription")
+			for j := 0; j < 1+rng.Intn(2); j++ {
+				kind := []fieldKind{fkRef, fkRef, fkRefs, fkStr, fkUnion, fkRef}[rng.Intn(6)]
+				if kind == fkUnion && len(w.Unions) == 0 {
+					kind = fkRef
+				}
+				to := target(kind)
+				declare(s, kind, to)
+				fd := Field{Name: fmt.Sprintf("s%d_%d", si, j), Type: typeOf(kind, to)}
+				if rng.Intn(2) == 0 {
+					fd.Args = []Arg{{Name: "v", Type: "String"}}
+				}
+				sub.Fields = append(sub.Fields, fd)
+				for k := 0; k < 6; k++ {
+					w.SubEvents[fd.Name] = append(w.SubEvents[fd.Name], mkValue(kind, to, fmt.Sprintf("%s#%d", fd.Name, k)))
+				}
+				w.Store.Roots["Subscription"][fd.Name] = w.SubEvents[fd.Name][0]
+				w.SubOwner[fd.Name] = s.URL
 			}
 		}
 	}
